@@ -35,6 +35,13 @@ Theorem C38_negotiate_best :
     exists q', In (negotiate supported cands, q') cands /\ (q <= q')%Z.
 Proof. exact negotiate_best. Qed.
 
+(* the same over the raw header text, for every header (byte string) and whatever strconv.ParseFloat returns
+   for the q parameters: the function never yields anything but "" or a shipped language *)
+Theorem C38_negotiate_header :
+  forall (parse_q : str -> option Z) (supported : list str) (header : str),
+    negotiate_header parse_q supported header = [] \/ In (negotiate_header parse_q supported header) supported.
+Proof. exact negotiate_header_supported. Qed.
+
 Example C38_nonvacuous :
   let t : table := [(7, [(0, (12, [3])); (2, (15, [3]))]); (8, [(0, (4, []))])] in
   check_all t [7; 8] [0; 1; 2] [] = true /\ resolves t 7 1 = true /\ translate t 7 1 = TEnglish (12, [3]) /\
@@ -44,3 +51,9 @@ Example C38_negotiate_nonvacuous :   (* fr-CH, fr;q=0.9, en;q=0.8, de  with en/e
   negotiate [[101;110]; [101;115]; [102;114]; [106;97]]
             [([100;101], 1000%Z); ([102;114], 900%Z); ([101;110], 800%Z)] = [102;114].
 Proof. vm_compute. reflexivity. Qed.
+Example C38_negotiate_header_nonvacuous :   (* "de;q=0.9, es_MX;q=0.5 ,FR-ch;q=.25": es_mx is not shipped, fr is *)
+  negotiate_header parse_q_dec [[101;110]; [101;115]; [102;114]; [106;97]]
+    [100;101;59;113;61;48;46;57;44;32;101;115;95;77;88;59;113;61;48;46;53;32;44;70;82;45;99;104;59;113;61;46;50;53] = [102;114] /\
+  parse_header parse_q_dec [100;101;59;113;61;48;46;57;44;32;101;115;95;77;88;59;113;61;48;46;53]
+    = [([100;101], 900000%Z); ([101;115;95;109;120], 500000%Z)].
+Proof. vm_compute. split; reflexivity. Qed.
